@@ -117,3 +117,38 @@ func VT_C10_PullIDEndsOnRemove() {
 	vt.NoLeak()
 	vt.Reach("done")
 }
+
+// Subscriptions (Pull and PullID) opened while a writer is active, then cancelled: nobody deadlocks, the writer is not
+// stalled beyond the cancel, the channels close and every goroutine ends.
+func VT_C10_SubscribeWhileWriting() {
+	c := NewCollection(WithInitialRecord("a", &T10{DefaultInt32: 1}))
+	var wg sync.WaitGroup
+	wg.Add(1)
+	var e1 error
+	go func() {
+		defer wg.Done()
+		_, e1 = c.Update("a", &T10{DefaultInt32: 2})
+	}()
+	ctx, cancel := context.WithCancel(context.Background())
+	var ch1 <-chan *CollectionChange
+	var ch2 <-chan *ValueChange
+	if vt.Choose("pullID", vt.Bound("pullIDToo", 1, 2)) == 1 {
+		ch2 = c.PullID(ctx, "a")
+	} else {
+		ch1 = c.Pull(ctx)
+	}
+	cancel()
+	wg.Wait()
+	if ch1 != nil {
+		for range ch1 {
+		}
+	} else {
+		for range ch2 {
+		}
+	}
+	vt.Assert(e1 == nil, "writer-not-failed-by-a-subscription-opened-meanwhile")
+	_, ok := c.Get("a")
+	vt.Assert(ok, "collection-still-readable")
+	vt.NoLeak()
+	vt.Reach("done")
+}
